@@ -71,6 +71,9 @@ def run(ctx):
                     st["dir"] = "./" + base
                 hists.append(H([{"k": "export_all", "t": 2}, {"k": "snap"}, st, {"k": "snap"}, {"k": "export_all", "t": 7}]))
                 meta.append((why, [(k, t)], 1, t))
+                # ... and in a process that has not exported anything yet (nothing the failing call reaches is there already)
+                hists.append(H([{"k": "snap"}, {"k": "snap"}, st, {"k": "snap"}, {"k": "export_all", "t": 7}]))
+                meta.append((why + "_fresh", [(k, t)], 1, t))
         real, model, dis = uni.run_both(ctx, binary, types, hists, f"obstacle histories env={env}")
         total += len(hists)
         # oracle on the implementation
@@ -88,6 +91,19 @@ def run(ctx):
             case = {"env": env, "kind": kind, "victim": types[victim]["name"], "steps": h["steps"]}
             if any(isinstance(s, dict) and s.get("panic") for s in r["steps"]) or r.get("poisoned"):
                 ctx.violation("an export panicked (or poisoned the registry) instead of returning an error", case, {"results": r["steps"]})
+                continue
+            if kind.endswith("_fresh"):
+                kind = kind[:-6]
+                res = r["steps"][2]
+                before, after = r["snaps"][1], r["snaps"][2]
+                if not (isinstance(res, dict) and "err" in res) or before != after or r["steps"][4] != "ok":
+                    e = next((e for e in ctx.known if e.get("match", {}).get("kind") == kind and e["match"].get("type") == types[victim]["name"]), None)
+                    if e:
+                        known_hit[e["id"]] = (e, case, res)
+                        continue
+                    ctx.violation(f"{kind}: the export did not return an error / changed the directory / broke a later export (fresh process)", case,
+                                  {"result": res, "changed": before != after, "later": r["steps"][4],
+                                   "new_paths": sorted(set(json.dumps(x) for x in after) - set(json.dumps(x) for x in before))[:6]})
                 continue
             if kind in ("non_exportable", "climbs_above_root"):
                 res = r["steps"][2]
